@@ -237,4 +237,37 @@ theorem flags_roundtrip_all (kind flag : ℕ) (hk : flagOk kind flag) (x : ℕ) 
     fun hx => flags_roundtrip frP _ b1 b2 b3 fr_ok.1 b4 b5 b6 fr_ok.2.2.2.2 kind flag hk x hx,
     fun hx => flags_roundtrip fpP _ c1 c2 c3 fp_ok.1 c4 c5 c6 fp_ok.2.2.2.2 kind flag hk x hx⟩
 
+/-- the integer a decimal digit string denotes -/
+def decVal (s : List Char) : ℕ := s.foldl (fun a c => 10 * a + (c.toNat - 48)) 0
+
+theorem fromStr_aux (F : FP) (s : List Char) : ∀ (a n : ℕ), a = n % F.m →
+    s.foldl (fun acc c => match acc with
+      | none => none
+      | some a => if c.isDigit then some (fadd F.m (fmul F.m 10 a) (c.toNat - 48)) else none) (some a)
+    = if s.all Char.isDigit then some (s.foldl (fun a c => 10 * a + (c.toNat - 48)) n % F.m) else none := by
+  induction s with
+  | nil => intro a n h; simp [h]
+  | cons c cs ih =>
+    intro a n h
+    simp only [List.foldl_cons, List.all_cons]
+    by_cases hc : c.isDigit = true
+    · simp only [hc, if_true, Bool.true_and]
+      apply ih
+      unfold fadd fmul
+      rw [h]
+      simp [Nat.add_mod, Nat.mul_mod]
+    · have hc' : c.isDigit = false := by simpa using hc
+      simp only [hc', Bool.false_eq_true, if_false, Bool.false_and]
+      clear ih
+      induction cs with
+      | nil => rfl
+      | cons d ds ih2 => simpa using ih2
+
+/-- **`FromStr`**: a string of decimal digits parses to the integer it denotes, reduced mod p (so leading zeros, values
+≥ p and arbitrarily long strings are all covered); any other character makes parsing fail; the empty string is 0 -/
+theorem from_str_spec (F : FP) (s : List Char) :
+    F.fromStr s = if s.all Char.isDigit then some (decVal s % F.m) else none := by
+  unfold FP.fromStr decVal
+  exact fromStr_aux F s 0 0 (Nat.zero_mod _).symm
+
 end C11
